@@ -93,6 +93,10 @@ names = [
  ('gen_find_buckets_loop', "T-gen tie of pvFindBuckets' loop (generated: `for (bkts = mBuckets; bkts != nullptr; bkts = bkts->GetNextBuckets())`, `if (bucketIndex >= bkts->GetCount()) continue;`, the std::less address-range test on GetBounds of bucket bucketIndex): with item addresses owner * M + pos (disjoint storage per generation, M above every bucket length) it computes the hand model's find_buckets_loop (same generation or MOMO_ASSERT(false))."),
  ('gen_find_buckets_is_model', "... and the whole generated pvFindBuckets (single-table shortcut, the loop with the translator's 70 units of fuel for chains shorter than 70 tables, final MOMO_ASSERT(false) = Stuck) = the hand model's find_buckets, on which C11_find_buckets_returns_owner / C11_removable / C11_remove_if_any_state rest."),
  ('gen_clear_is_hclear', """T-gen tie of Clear.  HashSet::Clear(shrink) is regenerated from HashSet.h on every run (Gen_HashSetClear.v: fields mCount / mCapacity / mBuckets; pvClear, pvDestroy() and pvDestroy(extracted chain, false) as recorded calls).  On the handle representation of the model chain (newest table 1, its successor 2 or nullptr 0) the GENERATED function yields the count, capacity and table pointer of the hand model's hclear; without shrink it clears exactly the newest table and destroys exactly the chain extracted from it (older generations left by interrupted migrations), capacity kept; with shrink everything is destroyed and the capacity is 0; bucket-less containers are untouched.  C11_clear_any_state is thereby about the generated field updates; what pvClear does to the buckets stays hand-modelled (clearT) + T-cor."""),
+ ('pv_move_is_interpreted_source', """The iterator machine rests on the source.  The statements of HashSetConstIterator::pvMove and ::pvInc are read off the clang AST on every run (astfacts.py -> Gen_RelocFacts.iter_move_stmts / iter_inc_stmts) and interpreted on the model's iterator state (IterInterp.v: mBuckets = head of the chain the iterator stands on, bucket index, bucket iterator as offset from GetBegin): the `while (true)` loop (++bucketIndex; break when out of range; bounds of that bucket; if it has items ptReset to its last item and return), then `nextBuckets = mBuckets->GetNextBuckets(); if (nextBuckets != nullptr) { mBuckets = nextBuckets; ptReset(0, bounds(0).GetEnd()); return pvInc(); }`, else the end iterator.  The mutual recursion is accepted only after mBuckets moved to the next table (well-founded on the chain).  The interpretation of the CURRENT source equals the hand model's pv_move for every chain and bucket index."""),
+ ('pv_inc_is_interpreted_source', "... and the interpreted pvInc (`if (bucketIter != bounds(bucketIndex).GetBegin()) ptReset(bucketIndex, prev(bucketIter)); else pvMove();`) equals the hand model's pv_inc.  C11_iterator_traversal_once, C11_traversal_once (through the machine) and the re-positioning inside Remove(iter) are therefore about the interpreted source."),
+ ('it_next_is_interpreted_source', "operator++ of the model (it_next, the `++iter` of Remove(filter)) is the interpreted pvInc.  (operator++'s own wrapper `if (ptIsMovable()) pvInc(); else this = end` is not interpreted: iterators of the model are always movable.)"),
+ ('it_begin_is_interpreted_source', "GetBegin: the statements of HashSet::GetBegin (`if (mCount == 0) return ConstIterator(); return ConstIteratorProxy(first table, 0, bounds(0).GetEnd(), version)`) and of the protected iterator constructor (member initialisers + `pvInc();`) interpreted = the hand model's it_begin -- the `iter = GetBegin()` of Remove(filter) and the start of every traversal."),
  ('remove_filter_is_interpreted_source', """Remove(filter) rests on the source.  The statements of HashSet::Remove(const ItemFilter&) are read off the clang AST on every run (astfacts.py -> Gen_RelocFacts.remove_filter_stmts: `initCount = GetCount(); iter = GetBegin(); while (!!iter) { if (itemFilter( *iter )) iter = Remove(iter); else ++iter; } return initCount - GetCount();`) and interpreted on the model state (RemoveIfInterp.v: the loop runs until the end iterator, the filter is applied to the item under the iterator, Remove(iter) = the modelled pvRemove -- generation through find_buckets, tremove, count - 1, iterator re-created at the hole and pvInc'ed --, ++iter = pv_inc).  The interpretation of the CURRENT source equals the hand model's hremove_if for every state and filter; C11_remove_if_any_state / C11_inv_step / C11_history_refines_set are theorems about hremove_if.  Hand-modelled primitives: Remove(iter), operator++ / GetBegin (iterator machine).  Swapping the branches, dropping the else, a different loop condition or return expression changes the generated list and breaks this proof."""),
  ('reloc_gens_is_interpreted_source', """AST facts feeding the model.  The statements of HashSet::pvRelocateItems(Buckets ptr) are read off the clang AST on every run (props/C11/astfacts.py -> Gen_RelocFacts.worker_stmts, syntax RelocSyntax.cstmt) and INTERPRETED on the model's chain of tables (GenFacts.interp_worker: `nextBuckets = buckets->GetNextBuckets()`, `if (nextBuckets != nullptr) { pvRelocateItems(nextBuckets); buckets->ExtractNextBuckets(); }` = recursive activation on the older chain, unlinked only after a normal return, the item loop = reloc_buckets (skeleton: Gen_HashSetMove), `buckets->Destroy` = the table disappears; a status other than MOk is an exception in flight and skips the remaining statements, there being no handler).  The interpretation of the CURRENT source equals the hand model's reloc_gens for every chain, newest table and failure schedule -- so every theorem above about interrupted migrations is about the interpreted statements: oldest generation first, the first failure leaves every table on the recursion path linked and not destroyed."""),
  ('relocate_is_interpreted_source', """... and the wrapper pvRelocateItems() (Gen_RelocFacts.wrapper_stmts: `nextBuckets = mBuckets->GetNextBuckets(); try { pvRelocateItems(nextBuckets); mBuckets->ExtractNextBuckets(); } catch (...) { }`), interpreted with try / catch-all semantics (an MStop raised inside the try is swallowed by the EMPTY catch-all handler, statements after the throw point inside the try are skipped, MTerm = std::terminate out of the noexcept worker), equals the hand model's `relocate` on every chain with at least two tables -- the function through which hadd / hreserve (and with them all theorems on growth failures) use the migration.  Moving ExtractNextBuckets out of the try, a non-empty handler, or any statement the interpreter does not know breaks this proof."""),
@@ -122,7 +126,7 @@ names = [
  ('ex_refused_until_full', "non-vacuity: with every growth refused a 2-bucket Open2N2<3> table accepts insertions up to 6 items through the fallback path, then reports full."),
 ]
 hdr = '''From Coq Require Import ZArith List Bool Permutation.
-From C11 Require Import GrowModel GenTie GenGrow GenFull GenFullP4 GenMove GenSame GenFacts GenFind GenClear TableRel RemoveIfInterp.
+From C11 Require Import GrowModel GenTie GenGrow GenFull GenFullP4 GenMove GenSame GenFacts GenFind GenClear TableRel RemoveIfInterp IterInterp.
 Import ListNotations.
 Local Open Scope Z_scope.
 Set Printing Width 130.
@@ -141,7 +145,7 @@ res = '''(* Property C11 -- theorems only.  Each is closed by `exact <lemma>` an
    UpdateMaxProbe never under-approximates, the growth policy does not shrink / probing reaches every bucket,
    CalcCapacity <= physical size); they are proved below for the kinds used by the extracted model. *)
 From Coq Require Import ZArith List Bool Permutation.
-From C11 Require Import GrowModel GenTie GenGrow GenFull GenFullP4 GenMove GenSame GenFacts GenFind GenClear TableRel RemoveIfInterp.
+From C11 Require Import GrowModel GenTie GenGrow GenFull GenFullP4 GenMove GenSame GenFacts GenFind GenClear TableRel RemoveIfInterp IterInterp.
 Import ListNotations.
 Local Open Scope Z_scope.
 
